@@ -225,6 +225,13 @@ def funnel(ctx: Ctx) -> None:
         target = base_init if ep != "simfile.ssc:SSCChart.from_str" else "simfile.ssc:SSCChart._parse"
         ctx.expect("R-FWD", f, f"{f.qualname} reaches {target.split(':')[1]}", target in reach, "",
                    f"{ep} no longer reaches {target} in the resolved call graph", node=f.node)
+    constructor_funnel(ctx)
+
+
+def constructor_funnel(ctx: Ctx) -> None:
+    """BaseSimfile.__init__: parse exactly the tokenizer's output whenever file or string is given (also the empty string)."""
+    p = ctx.p
+    base_init = "simfile.base:BaseSimfile.__init__"
     # the constructors run the format's own _parse on the tokenizer's output: string verbatim, file either as is or re-read completely,
     # whenever a source was given (also an empty string)
     bi = p.func(base_init)
